@@ -149,7 +149,7 @@ type c14Case struct {
 }
 
 // c14Check compares one ordered pair with its swap. Returns outcome and an optional violation.
-func c14Check(cs c14Case) (string, *evid.Violation) {
+func c14Check(cs c14Case) (string, []evid.Violation) {
 	ab := safeCompare(cs.DocA, cs.DocB)
 	ba := safeCompare(cs.DocB, cs.DocA)
 	if ab.Panic != "" || ba.Panic != "" || ab.Err != nil || ba.Err != nil {
@@ -157,7 +157,7 @@ func c14Check(cs c14Case) (string, *evid.Violation) {
 	}
 	ka, err := mirrorKeys(ab.Diffs, true)
 	if err != nil {
-		return "harness", &evid.Violation{Signature: "HARNESS", What: err.Error(), Case: cs}
+		return "harness", []evid.Violation{{Signature: "HARNESS", What: err.Error(), Case: cs}}
 	}
 	kb, _ := mirrorKeys(ba.Diffs, false)
 	onlyA, onlyB := multisetDiff(ka, kb)
@@ -167,28 +167,53 @@ func c14Check(cs c14Case) (string, *evid.Violation) {
 		}
 		return "mirrored", nil
 	}
-	// signature: the families involved in the asymmetry
-	fams := map[string]bool{}
-	for _, k := range append(append([]string{}, onlyA...), onlyB...) {
-		f := strings.SplitN(k, " @ ", 2)[0]
-		fams[strings.TrimLeft(f, "+-=")] = true
+	// one violation per location component (URL, method, response): the signature is the set of
+	// unmatched (direction class @ location) keys of that component, so that one root cause is one
+	// signature whatever else differs between the two documents.
+	comp := map[string][]string{}
+	for _, k := range onlyA {
+		c := locComponent(k)
+		comp[c] = append(comp[c], "A:"+k)
 	}
-	fl := make([]string, 0, len(fams))
-	for f := range fams {
-		fl = append(fl, f)
+	for _, k := range onlyB {
+		c := locComponent(k)
+		comp[c] = append(comp[c], "B:"+k)
 	}
-	sort.Strings(fl)
-	sig := "asym " + strings.Join(fl, ",")
-	if len(fl) == 0 {
-		sig = "count"
+	var vs []evid.Violation
+	for c, keys := range comp {
+		sort.Strings(keys)
+		vs = append(vs, evid.Violation{
+			Signature: "asym " + strings.Join(dedup(keys), "; "),
+			What:      fmt.Sprintf("Compare(%s,%s) is not the mirror image of Compare(%s,%s) at [%s]: unmatched %v (A: only in mirrored A->B, B: only in B->A)", cs.A, cs.B, cs.B, cs.A, c, keys),
+			Case:      cs,
+			Observed:  map[string]interface{}{"a_to_b": diffStrings(ab.Diffs), "b_to_a": diffStrings(ba.Diffs)},
+			Expected:  "multiset{(loc, mirror(code))} of A->B equals multiset{(loc, code)} of B->A, equal lengths",
+		})
 	}
-	return "asymmetric", &evid.Violation{
-		Signature: sig,
-		What:      fmt.Sprintf("Compare(%s,%s) mirrored != Compare(%s,%s): only in mirrored A->B %v; only in B->A %v", cs.A, cs.B, cs.B, cs.A, onlyA, onlyB),
-		Case:      cs,
-		Observed:  map[string]interface{}{"a_to_b": diffStrings(ab.Diffs), "b_to_a": diffStrings(ba.Diffs)},
-		Expected:  "multiset{(loc, mirror(code))} of A->B equals multiset{(loc, code)} of B->A, equal lengths",
+	if len(vs) == 0 {
+		vs = append(vs, evid.Violation{Signature: "count", What: fmt.Sprintf("reports of (%s,%s) have different lengths %d vs %d", cs.A, cs.B, len(ab.Diffs), len(ba.Diffs)), Case: cs})
 	}
+	return "asymmetric", vs
+}
+
+func locComponent(key string) string {
+	// key = "<dir><Family> @ <url> <method> <response> <nodes>"
+	parts := strings.SplitN(key, " @ ", 2)
+	f := strings.Fields(parts[1] + " ")
+	if len(f) >= 3 {
+		return strings.Join(f[:3], " ")
+	}
+	return parts[1]
+}
+
+func dedup(in []string) []string {
+	var out []string
+	for i, s := range in {
+		if i == 0 || in[i-1] != s {
+			out = append(out, s)
+		}
+	}
+	return out
 }
 
 func RunC14(tier string, replay string) int {
@@ -205,11 +230,11 @@ func RunC14(tier string, replay string) int {
 			fmt.Fprintln(os.Stderr, err)
 			return 2
 		}
-		out, v := c14Check(rep.Case)
+		out, vs := c14Check(rep.Case)
 		fmt.Println("outcome:", out)
-		if v != nil {
+		for _, v := range vs {
 			fmt.Println(v.What)
-			r.Violate(*v)
+			r.Violate(v)
 		}
 		return r.Finish()
 	}
@@ -226,7 +251,7 @@ func RunC14(tier string, replay string) int {
 			}
 		}
 	}
-	edits := EditPairs(tier)
+	edits := append(EditPairs(tier), NeutralEdits()...)
 	for _, e := range edits {
 		cases = append(cases, c14Case{A: e.Name + ":old", B: e.Name + ":new", DocA: e.Old, DocB: e.New})
 	}
@@ -235,12 +260,12 @@ func RunC14(tier string, replay string) int {
 	r.Extra["bound_completed"] = fmt.Sprintf("all unordered pairs of family members with <=%d features, all catalogue edit pairs; both directions each", k)
 	parallel(len(cases), runtime.NumCPU(), func(_, i int) {
 		cs := cases[i]
-		out, v := c14Check(cs)
-		if v != nil {
+		out, vs := c14Check(cs)
+		for _, v := range vs {
 			if v.Signature == "HARNESS" {
 				r.HarnessError("%s", v.What)
 			} else {
-				r.Violate(*v)
+				r.Violate(v)
 			}
 		}
 		r.CaseKeyed(cs.A+"|"+cs.B, map[string]string{"a": cs.A, "b": cs.B, "outcome": out}, out == "mirrored" || out == "asymmetric", out)
